@@ -106,6 +106,7 @@ def run_check(tier: str, seed: int, runs: int | None = None, parallel: int | Non
 
         exit_code = EXIT_OK
         seen = set()
+        unreproduced = []
         for i, v in found:
             key = vkey_of(v)
             if jdump(key) in seen:
@@ -120,12 +121,16 @@ def run_check(tier: str, seed: int, runs: int | None = None, parallel: int | Non
             case = _case_of(v)
             confirms = [case["node"] in engine.cold("sim.c02", "replay_case", case, hashseed=engine.slots[i % len(engine.slots)].S.hashseed)["violating"] for _ in range(3)]
             if not all(confirms):
-                raise HarnessError(f"C02 violation of run {i} (node {case['node']}) does not replay in cold interpreters: {confirms}")
+                unreproduced.append(f"run {i} node {case['node']}: {confirms}")
+                continue
             tag = f"{i}-{len(viol_lines)}"
             path = write_replay(PROP, seed, tag, {"hashseed": engine.slots[i % len(engine.slots)].S.hashseed, "case": case, "violation_key": key, "report": v.get("report"), "family": v.get("family"), "original_rows": v.get("original_rows"), "minimised_rows": [len(case["A"]["p_id"]), len(case["B"]["p_id"]) if case.get("B") else 0], "shrink_candidates": v.get("shrink_candidates"), "replay_cmd": f"./check replay replays/{PROP}-{seed}-{tag}.json"})
             viol_lines.append(f"VIOLATION property={PROP} replay={path}")
             log(f"  violation: node={case['node']} family={v.get('family')} A={len(case['A']['p_id'])} B={len(case['B']['p_id']) if case.get('B') else 0} detail={jdump((v.get('report') or {}).get('detail', {}).get(case['node']))[:400]}")
             exit_code = EXIT_VIOLATION
+        from sim.c01_driver import _unreproduced_verdict
+
+        _unreproduced_verdict(unreproduced, viol_lines)
     finally:
         engine.close()
 
